@@ -1155,17 +1155,8 @@ func (d *dealer) syncYield(callee *wamp.Session, msg *wamp.Yield, progress, canR
 			return false
 		}
 
-		// Every side supports PPT feature. Fill PPT options for callee.
-		details[wamp.OptPPTScheme] = pptScheme
-		if val, ok := msg.Options[wamp.OptPPTSerializer]; ok {
-			details[wamp.OptPPTSerializer] = val.(string)
-		}
-		if val, ok := msg.Options[wamp.OptPPTCipher]; ok {
-			details[wamp.OptPPTCipher] = val.(string)
-		}
-		if val, ok := msg.Options[wamp.OptPPTKeyId]; ok {
-			details[wamp.OptPPTKeyId] = val.(string)
-		}
+		// Every side supports PPT feature. Fill PPT options for caller.
+		pptOptionsToDetails(msg.Options, details)
 	}
 
 	// Send RESULT to the caller. If the caller is blocked, then make the
